@@ -596,7 +596,14 @@ func (fr *faultRun) exec() {
 			}
 		case 9:
 			kind, desc = "E10_command_config", "command config nil / arg position out of range / negative"
-			switch fr2.Intn(4) {
+			switch fr2.Intn(5) {
+			case 4:
+				// entries with neither field set (legal JSON: "cmd": {})
+				eo.AutoVars = map[string]comp.AutoVar{}
+				for _, k := range SortedKeys(o.AutoVars) {
+					eo.AutoVars[k] = comp.AutoVar{}
+				}
+				eo.AutoVars["msgbox"] = comp.AutoVar{}
 			case 0:
 				eo.AutoVars = nil
 			case 1:
